@@ -484,7 +484,11 @@ var LogFunc = function.New(&function.Spec{
 			return cty.UnknownVal(cty.String), err
 		}
 
-		return cty.NumberFloatVal(math.Log(num) / math.Log(base)), nil
+		result := math.Log(num) / math.Log(base)
+		if math.IsNaN(result) {
+			return cty.UnknownVal(cty.Number), fmt.Errorf("logarithm of %s in base %s is not a number", args[0].AsBigFloat().String(), args[1].AsBigFloat().String())
+		}
+		return cty.NumberFloatVal(result), nil
 	},
 })
 
